@@ -90,6 +90,10 @@ func (f c16Fake) set(uid []byte, field string, v int64) {
 		u.DownCredit = v
 	case "ExpiryTime":
 		u.Expiry = v
+	case "UpRate":
+		u.UpRate = v
+	case "DownRate":
+		u.DownRate = v
 	}
 }
 func (f c16Fake) delete(uid []byte) { f.fm.DeleteUser(uid) }
@@ -489,6 +493,15 @@ func c16Inner(sc c16Scenario) (vk.Result, error) {
 			}
 			store.set(c15UID(u), "ExpiryTime", exp)
 			models[u].expired = true
+		case "rates":
+			// an administrator gives the user other (still generous) rates while it may be active; whatever the server
+			// does with them, the user's traffic keeps being charged
+			u := op.U % sc.Users
+			if models[u].deleted {
+				return false, nil
+			}
+			store.set(c15UID(u), "UpRate", 200000000+op.Amt)
+			store.set(c15UID(u), "DownRate", 300000000+op.Amt)
 		case "delete":
 			u := op.U % sc.Users
 			store.delete(c15UID(u))
@@ -592,7 +605,13 @@ func c16Gen(rt *rapid.T) c16Scenario {
 			sc.Ops = append(sc.Ops, c16Op{K: "topup", U: rapid.IntRange(0, sc.Users-1).Draw(rt, "tu"), N: rapid.IntRange(0, 1).Draw(rt, "dir"), Amt: rapid.Int64Range(1, 1000000).Draw(rt, "amt")})
 		case k < 95:
 			sc.Ops = append(sc.Ops, c16Op{K: "exhaust", U: rapid.IntRange(0, sc.Users-1).Draw(rt, "xu"), N: rapid.IntRange(0, 1).Draw(rt, "xdir"), Amt: rapid.Int64Range(0, 49).Draw(rt, "xamt")})
-		case k < 97:
+		case k < 96:
+			// other rates, and the user connects again (a new session, or none if it is refused)
+			ru := rapid.IntRange(0, sc.Users-1).Draw(rt, "ru")
+			sc.Ops = append(sc.Ops, c16Op{K: "rates", U: ru, Amt: rapid.Int64Range(1, 1000000).Draw(rt, "ramt")})
+			sc.Ops = append(sc.Ops, c16Op{K: "session", U: ru, N: rapid.IntRange(0, 2).Draw(rt, "rnconn")})
+			nsesh++
+		case k < 98:
 			sc.Ops = append(sc.Ops, c16Op{K: "expire", U: rapid.IntRange(0, sc.Users-1).Draw(rt, "eu"), N: rapid.IntRange(0, 3).Draw(rt, "ev")})
 		default:
 			sc.Ops = append(sc.Ops, c16Op{K: "delete", U: rapid.IntRange(0, sc.Users-1).Draw(rt, "du")})
